@@ -65,3 +65,13 @@ Proof.
   - apply (exact_output_unique ds ds out (spec_group ds)); [tauto | exact H | apply spec_group_exact].
   - apply (exact_output_unique ds ds (spec_group ds) out); [tauto | apply spec_group_exact | exact H].
 Qed.
+
+(* CheckedFiles: a file is counted as checked iff it belongs to a package that was analysed *)
+Theorem checked_of_iff ps f :
+  In f (checked_of ps) <-> exists p, In p ps /\ pk_initial p = true /\ pk_failed p = false /\ pk_skipped p = false /\ In f (pk_files p).
+Proof.
+  unfold checked_of, analysed. rewrite in_flat_map. split.
+  - intros [p [Ip If]]. exists p. destruct (pk_initial p), (pk_failed p), (pk_skipped p); simpl in If; try contradiction. auto.
+  - intros [p (Ip & H1 & H2 & H3 & If)]. exists p. rewrite H1, H2, H3. auto.
+Qed.
+(* hence a run in which the package of a file failed to compile does not veto an 'all' problem of that file *)
